@@ -6,6 +6,11 @@ import EinxModel.Driver.Solve
 import EinxModel.Driver.Cache
 import EinxModel.Driver.Concurrent
 import EinxModel.Driver.IR
+import EinxModel.Driver.Generic
+import EinxModel.Driver.Elab
+import EinxModel.Driver.Alias
+import EinxModel.Driver.Optimize
+import EinxModel.Driver.Denote
 /-! Line-protocol driver: one JSON request per input line, one JSON answer per output line. -/
 open Lean Einx.Driver
 
@@ -18,6 +23,11 @@ def dispatch (j : Json) : R Json := do
   | "cache-table" | "freeze" | "pyeq" | "pyhash" | "memo" | "stack" => Einx.Driver.Cache.handle j
   | "solve" | "checksat" | "checkaxes" => Einx.Driver.Solve.handle j
   | "ir_run" | "validate" | "denote" => Einx.Driver.IR.handle j
+  | "py_grammar" | "stb_model" => Einx.Driver.Generic.handle j
+  | "parse_op_model" => Einx.Driver.Elab.handle j
+  | "writes" | "writes_prog" | "alias_table" => Einx.Driver.Alias.handle j
+  | "equiv" | "equiv_progs" | "kernel" => Einx.Driver.Optimize.handle j
+  | "denote_fun" => Einx.Driver.Denote.handle j
   | "update_denote" | "update_lower" | "update_get" | "update_addr" | "np_put" | "np_ufunc_at" | "assignments" =>
     Einx.Driver.Update.handle j
   | k => throw s!"unknown kind {k}"
